@@ -53,6 +53,14 @@ func (f *Isqrt) Call(s *slip.Scope, args slip.List, depth int) (result slip.Obje
 		)
 		bi, _ := zf.Sqrt((*big.Float)(ta)).Int(&z)
 		result = intReduce(bi)
+	case slip.Fixnum:
+		// A float64 does not hold every fixnum, the float root of a large
+		// fixnum can be one too many.
+		if ta < 0 {
+			slip.ArithmeticPanic(s, depth, f, args, "only non-negative values are allowed")
+		}
+		var z big.Int
+		result = slip.Fixnum(z.Sqrt(big.NewInt(int64(ta))).Int64())
 	case slip.Real:
 		rv := ta.RealValue()
 		if rv < 0.0 {
